@@ -184,6 +184,12 @@ def stmts(depth, width, top=True):
                 res.append(("switch", [("case 1:", [x, ("break",)]), ("default:", [("expr", "b = 3;")])]))
                 res.append(("switch", [("case 1:", [("block", [x, ("break",)])]), ("case 2:", []), ("default:", [("break",)])]))
                 res.append(("switch", [("case 1:", [("block", [x]), ("break",)]), ("default:", [("block", [("expr", "b = 3;")]), ("break",)])]))
+            # the first statement of a case on the line of its label
+            for h in ("if", "while", "for", "forx"):
+                res.append(("switchi", [("case 1:", [(h, ("bare", ("expr", "b = 2;"))), ("expr", "b = 4;"), ("break",)]),
+                                        ("default:", [("do", ("bare", ("expr", "b = 3;")))])]))
+            res.append(("switchi", [("case 1:", [("ifelse", ("bare", ("expr", "b = 2;")), ("bare", ("expr", "b = 4;"))), ("break",)]),
+                                    ("default:", [("expr", "b = 3;"), ("break",)])]))
         cache[key] = res
         return res
 
@@ -249,6 +255,15 @@ def render(node, style="kr", ind=0, unit="    "):
         for x in node[1]:
             out += render(x, style, ind + 1, unit)
         return out + [pad + "}"]
+    if k == "switchi":
+        out = [pad + "switch (a) {"] if style != "allman" else [pad + "switch (a)", pad + "{"]
+        for lab, body in node[1]:
+            first = render(body[0], style, ind + 1, unit)
+            out.append(pad + lab + " " + first[0].strip())
+            out += first[1:]
+            for x in body[1:]:
+                out += render(x, style, ind + 1, unit)
+        return out + [pad + "}"]
     if k == "switch":
         out = [pad + "switch (a) {"] if style != "allman" else [pad + "switch (a)", pad + "{"]
         for lab, body in node[1]:
@@ -301,6 +316,8 @@ def render_one(node):
         return "do " + body(node[1]) + " while (a);"
     if k == "block":
         return "{ " + " ".join(render_one(x) for x in node[1]) + " }"
+    if k == "switchi":
+        return "switch (a) { " + " ".join(lab + " " + " ".join(render_one(x) for x in b) for lab, b in node[1]) + " }"
     if k == "switch":
         return "switch (a) { " + " ".join(lab + " " + " ".join(render_one(x) for x in b) for lab, b in node[1]) + " }"
     raise ValueError(k)
